@@ -122,3 +122,30 @@ package storage
 //@       (badger.itkey(*it) != 0 ==> badger.keylt(CustKeyId(found.Timestamp), badger.itkey(*it)))
 //@   loop 0 invariant [above] forall x mathint :: {CustAt(*txn, x)} U64T(x) && CustAt(*txn, x) != 0 && (found == nil || found.Timestamp < x) ==>
 //@       badger.itkey(*it) != 0 && !badger.keylt(CustKeyId(x), badger.itkey(*it))
+
+//@ -- ═════════ the public observation point: one read-only transaction over the committed state ═════════
+//@ spec DbCustAt(d badger.DB, ts mathint) mathint = badger.dbget(d, CustKeyId(ts))
+//@ spec DbTxOf(d badger.DB, h mathint) mathint = badger.dbget(d, TxKeyId(h))
+//@ spec DbCustOK(d badger.DB) bool = forall k mathint :: {badger.dbget(d, k)} badger.dbget(d, k) != 0 && badger.keypfx(k, strkey(graphPrefixCustodianUpdate)) == 0 ==>
+//@     IsCustKey(k) && badger.vallen(badger.dbget(d, k)) == 32 && DbTxOf(d, badger.dbget(d, k)) != 0
+//@ spec DbNoneBelow(d badger.DB, T mathint) bool = forall x mathint :: {DbCustAt(d, x)} 0 <= x && x < T ==> DbCustAt(d, x) == 0
+//@ spec DbEntryOK(cache *sync.Map, d badger.DB, k any) bool = sync.smhas(*cache, k) ==>
+//@     exists o *common.CustodianUpdateRequest :: sync.smval(*cache, k) == iface(o) && ReqShape(o) &&
+//@        common.ReqIs(o, TxExtraOf(DbTxOf(d, KeyHash(k))), KeyGen(k))
+//@ spec DbCacheAll(cache *sync.Map, d badger.DB) bool = forall k any :: {sync.smhas(*cache, k)} DbEntryOK(cache, d, k)
+
+//@ -- ReadCustodian(ts): nil when no custodian record has a timestamp <= ts; otherwise a fresh deep copy of the parse of the transaction
+//@ -- of the record with the GREATEST timestamp <= ts (genesis flag: it is the first record), carrying that hash and timestamp — a function
+//@ -- of the records with timestamp <= ts (and the transactions they name) only, whatever the cache holds.
+//@ func (s *BadgerStore) ReadCustodian
+//@   property C11
+//@   requires s != nil && s.snapshotsDB != nil && DbCustOK(*s.snapshotsDB) && DbCacheAll(&s.custodians, *s.snapshotsDB)
+//@   modifies s.custodians
+//@   ensures [error] err != nil ==> result0 == nil
+//@   ensures [none] err == nil && result0 == nil ==> forall x mathint :: {DbCustAt(*s.snapshotsDB, x)} U64T(x) && x <= ts ==> DbCustAt(*s.snapshotsDB, x) == 0
+//@   ensures [greatest] err == nil && result0 != nil ==> result0.Timestamp <= ts && DbCustAt(*s.snapshotsDB, result0.Timestamp) != 0 &&
+//@       (forall x mathint :: {DbCustAt(*s.snapshotsDB, x)} U64T(x) && result0.Timestamp < x && x <= ts ==> DbCustAt(*s.snapshotsDB, x) == 0)
+//@   ensures [record] err == nil && result0 != nil ==> fresh(result0) && kvval(result0.Transaction) == DbCustAt(*s.snapshotsDB, result0.Timestamp) &&
+//@       (DbNoneBelow(*s.snapshotsDB, result0.Timestamp) ==> common.ReqIs(result0, TxExtraOf(DbTxOf(*s.snapshotsDB, DbCustAt(*s.snapshotsDB, result0.Timestamp))), true)) &&
+//@       (!DbNoneBelow(*s.snapshotsDB, result0.Timestamp) ==> common.ReqIs(result0, TxExtraOf(DbTxOf(*s.snapshotsDB, DbCustAt(*s.snapshotsDB, result0.Timestamp))), false))
+//@   ensures [cache-inv] DbCacheAll(&s.custodians, *s.snapshotsDB)
